@@ -294,8 +294,14 @@ func (pool *BlockPool) SetPeerRange(peerID p2p.ID, base int64, height int64) {
 
 	peer := pool.peers[peerID]
 	if peer != nil {
+		lowered := height < peer.height && peer.height == pool.maxPeerHeight
 		peer.base = base
 		peer.height = height
+		if lowered {
+			// the peer that defined the maximum now reports less: the maximum has to follow,
+			// otherwise IsCaughtUp keeps waiting for a height nobody has
+			pool.updateMaxPeerHeight()
+		}
 	} else {
 		peer = newBPPeer(pool, peerID, base, height)
 		peer.setLogger(pool.Logger.With("peer", peerID))
